@@ -191,11 +191,11 @@ def CompOK (U : UCfg) (A : Ana) (comp : Compiled) : Prop :=
 /-- what is known about every queued edge -/
 def QOK (U : UCfg) (q : List (Blk × Nat × Blk)) (comp : Compiled) : Prop :=
   ∀ p i b, (p, i, b) ∈ q → ∃ row outs, findC p comp = some (row, outs) ∧
-    (U.succ p ++ U.dsucc p)[i]? = some b ∧ (b ∈ U.succ p ∨ (p = U.entry ∧ b ∈ U.dsucc p))
+    (U.succ p ++ U.dsucc p)[i]? = some b ∧ b ∈ U.succ p ++ U.dsucc p
 
 theorem tyAt_step {U : UCfg} {x : Var} {p b : Blk} {rowp : Row} {o : Option Ty}
     (hty : TyAt U x p o) (ho : ∀ t, lookup x rowp = some t → o = some t)
-    (he : b ∈ U.succ p ∨ (p = U.entry ∧ b ∈ U.dsucc p)) :
+    (he : b ∈ U.succ p ++ U.dsucc p) :
     ∃ o', TyAt U x b o' ∧ ∀ t, lookup x (runEvents rowp (U.events p)) = some t → o' = some t := by
   refine ⟨exitTy (U.events p) o x, .edge hty he, ?_⟩
   intro t ht
@@ -315,9 +315,7 @@ theorem bfs_spec {U : UCfg} (hU : U.WF) {A : Ana} (hA : AnaOK U A) :
           · obtain ⟨hp', hs'⟩ := mem_revEnum hm
             subst hp'
             refine ⟨rowFor A env p', outsOf U A p' (rowFor A env p'), by rw [findC_cons]; simp, ?_, ?_⟩
-            · rw [List.getElem?_append_left]
-              · exact hs'
-              · exact (List.getElem?_eq_some_iff.mp hs').1
-            · exact Or.inl (List.mem_of_getElem? hs')
+            · exact hs'
+            · exact List.mem_of_getElem? hs'
 
 end GuppyVerif.UseDef
